@@ -20,7 +20,7 @@ CLAIMS = {
         "outside the verdict (decode_line's per-byte loop carries only in_string/len/p); CBMC + CaDiCaL trusted",
    ref="5 C03", tech=TECH_C),
  "C08": dict(
-   text="For arbitrary line bodies (<= L bytes), arbitrary files (<= N = 20/40 bytes, length byte unconstrained so the 1024-byte static buffer and the "
+   text="For arbitrary line bodies (<= L bytes), arbitrary files (<= N = 20 quick; thorough 40 big-endian, 28 little-endian, length byte unconstrained so the 1024-byte static buffer and the "
         "len-3/len-4 wrap are exercised), all dialects and LISTO values, and every command-line shape of <= 3 options and <= 3 operands: no bounds, "
         "pointer, signed-overflow or shift violation, all loops terminate within the unwinding bound, exit status in {0,1}, non-zero status implies a "
         "diagnostic, option state is initialised before use (NDEBUG and assert builds).",
@@ -28,7 +28,7 @@ CLAIMS = {
    ref="5 C08", tech=TECH_C),
  "C09": dict(
    text="Every line the oracle classifies as ill-formed (unassigned token or extension code, 0x8D/extension cut by end of line, Windows fast variables, NUL) "
-        "is rejected with a diagnostic; every file (<= N = 12/20 bytes) that is truncated or ill-framed is rejected with a diagnostic and the lines decoded "
+        "is rejected with a diagnostic; every file (<= N = 12 bytes; thorough 14 big-endian) that is truncated or ill-framed is rejected with a diagnostic and the lines decoded "
         "before the failure are exactly the complete documented lines; with two files decoded in one execution (shared static buffers) each file's lines "
         "depend only on that file; the framing oracle is prefix-monotone (so 'output is a prefix of the intact output'); exit status accumulates over files.",
    note="as C03; the prefix clause is obtained by composition (real == oracle, oracle prefix-monotone), each half solver-decided",
